@@ -18,7 +18,7 @@ ORDER_TAGS = {"peek_none", "peek_stored", "peek_extreme", "pop_none", "pop_store
 CONTENT_TAGS = {"ret", "contents", "tag", "len", "is_empty", "iter", "into_iter", "into_vec", "get",
                 "get_borrowed", "setter_calls", "peek_stored", "pop_stored", "peek_none", "pop_none",
                 "popif_stored", "popif_none", "popif_seen", "sorted_missing", "sorted_dup_or_unknown",
-                "sorted_elem", "sorted_count", "retain_calls", "itermut_elem", "bulk_contents",
+                "sorted_elem", "sorted_count", "retain_calls", "itermut_elem", "itermut_dup", "bulk_contents",
                 "append_contents", "append_other_nonempty", "unknown_op"}
 SAFETY_TAGS = {"panic", "wf", "abort"}
 ALL = None  # every tag
@@ -420,7 +420,11 @@ def p_C14(tier, seed):
             for j, o in enumerate(reps):
                 for pi, perm in enumerate(perms):
                     ren = dict(zip(names, perm))
-                    how = [{"op": "new", "q": 2}, {"op": "new", "q": 2, "how": "with_capacity", "cap": 64}][(j + pi) % 2]
+                    # the other side: another capacity, and every third time another BuildHasher TYPE (PartialEq is
+                    # generic over the two hashers)
+                    oh = {"std": "fixed", "fixed": "std", "collide": "std"}[hashers[i % 3]]
+                    how = [{"op": "new", "q": 2}, {"op": "new", "q": 2, "how": "with_capacity", "cap": 64},
+                           {"op": "new", "q": 2, "hasher": oh}][(j + pi) % 3]
                     build = [how] + [rename(dict(st, q=2), ren) for st in o["steps"]]
                     probes.append(build + [{"op": "eq", "q": 1, "o": 2}, {"op": "ne", "q": 1, "o": 2},
                                            {"op": "eq", "q": 2, "o": 1}, {"op": "eq", "q": 1, "o": 1}])
@@ -632,7 +636,7 @@ PROPS = {
     "C06": {"run": p_C06, "level": "model_checking",
             "relevant": lambda fl: (fl["op"] == "sorted" and fl["event"].get("mode") in ("vec", "iter", "asc_vec", "desc_vec")) or
             (fl["op"] == "into_calls" and fl["cause"].get("it") == "sorted"
-             and bool(set(fl["tags"]) & {"iter_order", "iter_dup", "iter_unknown", "iter_missing", "iter_after_none", "iter_len"}))},
+             and bool(set(fl["tags"]) & {"iter_order", "iter_last", "iter_dup", "iter_unknown", "iter_missing", "iter_after_none", "iter_len"}))},
     "C07": {"run": p_C07, "level": "model_checking",
             "relevant": lambda fl: fl["cause_op"] in BULK},
     "C08": {"run": p_C08, "level": "model_checking",
@@ -642,7 +646,7 @@ PROPS = {
     "C13": {"run": p_C13, "level": "model_checking",
             "relevant": lambda fl: fl["op"] in ("iter_calls", "into_calls")
             and fl["cause"].get("it") in ("iter", "iter_ref", "into_iter", "drain", "sorted")
-            and bool(set(fl["tags"]) & {"iter_dup", "iter_unknown", "iter_missing", "iter_after_none", "iter_len", "iter_hint", "iter_panic"})},
+            and bool(set(fl["tags"]) & {"iter_dup", "iter_unknown", "iter_missing", "iter_after_none", "iter_len", "iter_hint", "iter_panic", "iter_last"})},
     "C14": {"run": p_C14, "level": "model_checking",
             "relevant": lambda fl: fl["op"] in ("eq", "ne", "clone") or fl["phase"] == "hist"
             or (fl["op"] in ("contents",) and fl.get("event", {}).get("q") == 0)},
